@@ -8,6 +8,7 @@ import MiniMoka.Sync
 import MiniMoka.Spec.Oracles
 import MiniMoka.DequeHeap
 import MiniMoka.Config
+import MiniMoka.ConcR
 
 namespace MiniMoka
 namespace Driver
@@ -251,8 +252,58 @@ partial def oracleLoop (prop : String) (h : IO.FS.Stream) (out : IO.FS.Stream)
         let c' := if c.parseError.isSome then c else { c with parseError := some l }
         oracleLoop prop h out (some c') n
 
+/-! ### accept mode: recorded real-thread histories judged by the acceptor of model R -/
+
+def parseHOp (line : String) : Option ConcR.HOp :=
+  match line.splitOn " -> " with
+  | [lhs, res] =>
+    match lhs.trimAscii.toString.splitOn " " with
+    | who :: inv :: rs :: opWords => do
+      let t ← (if who == "final" then some 999 else (who.drop 1).toString.toNat?)
+      let i ← inv.toNat?
+      let r ← rs.toNat?
+      let result : Option Nat := match res.trimAscii.toString.splitOn " " with
+        | ["some", v] => v.toNat?
+        | _ => none
+      match opWords with
+      | ["ins", k, v] => do
+        some { thread := t, invStamp := i, resStamp := r, op := .ins (← k.toNat?) (← v.toNat?), result := none }
+      | ["inv", k] => do
+        some { thread := t, invStamp := i, resStamp := r, op := .del (← k.toNat?), result := none }
+      | ["get", k] => do
+        some { thread := t, invStamp := i, resStamp := r, op := .get (← k.toNat?), result := result }
+      | _ => none
+    | _ => none
+  | _ => none
+
+partial def acceptLoop (h : IO.FS.Stream) (out : IO.FS.Stream) (cur : Option (String × List ConcR.HOp)) :
+    IO Unit := do
+  let flush (c : Option (String × List ConcR.HOp)) : IO Unit :=
+    match c with
+    | some (name, ops) =>
+      out.putStrLn s!"{name} {if ConcR.acceptR ops.reverse then "ok" else "REJECT"} ops={ops.length}"
+    | none => pure ()
+  let line ← h.getLine
+  if line.isEmpty then
+    flush cur
+    return ()
+  let l := line.trimAscii.toString
+  if l.startsWith "prog " then
+    flush cur
+    acceptLoop h out (some (((l.splitOn " ").take 2 |> " ".intercalate), []))
+  else if l.startsWith "t" || l.startsWith "final" then
+    match cur, parseHOp l with
+    | some (n, ops), some o => acceptLoop h out (some (n, o :: ops))
+    | _, _ => acceptLoop h out cur       -- `sync` lines and the like are not part of model R
+  else acceptLoop h out cur
+
 def main (args : List String) : IO UInt32 := do
   match args with
+  | ["accept"] =>
+    let stdin ← IO.getStdin
+    let stdout ← IO.getStdout
+    acceptLoop stdin stdout none
+    return 0
   | ["oracle", prop] =>
     let stdin ← IO.getStdin
     let stdout ← IO.getStdout
